@@ -285,7 +285,7 @@ func c17LastClass(w *mcWallet) string {
 func TestMC_C17(t *testing.T) {
 	c := verifmc.Start(t, "C17", "model_checking")
 	defer c.Finish()
-	c.SetRule("BFS over all histories of real finalized one-transaction snapshots (deposit / split / merge / withdrawal submit / claim / mint / pledge / cancel / re-finalization on another chain / admission without finalization, finalization-path takeover by a competitor, later finalization of the pending spend) built by a deterministic wallet against the current state; canonical state = multiset of (asset,type,amount,spent) of all UTXO records + reference totals + pending flags; invariant evaluated in every state")
+	c.SetRule("(1) BFS over all histories of real finalized one-transaction snapshots (deposit / split / merge / withdrawal submit / claim / mint / pledge / cancel / re-finalization on another chain / admission without finalization, finalization-path takeover by a competitor, later finalization of the pending spend) built by a deterministic wallet against the current state; canonical state = multiset of (asset,type,amount,spent) of all UTXO records + reference totals + pending flags; invariant evaluated in every state")
 	c.Assume("Badger transactions are atomic; snapshots are written directly on a genesis chain's head round (storage layer, no kernel round logic); the wallet's choice of inputs (smallest first) is part of the alphabet")
 	depth := verifmc.Pick(c, 5, 7)
 	b := &verifmc.BFS[*mcWallet]{
@@ -299,4 +299,5 @@ func TestMC_C17(t *testing.T) {
 	states, trans, d, _ := b.Run()
 	c.Set("max_depth", d)
 	c.Require(states > 50 && trans > 200, "vacuous C17 exploration: %d states %d transitions", states, trans)
+	c17Concurrent(c)
 }
